@@ -297,6 +297,15 @@ func VerifC02TwoBranchesConverge() {
 	c02Check(g, vchoose("stream", 2) == 1)
 }
 
+// a node n with two control predecessors: p finishes (and routes to n) one step before the branch of a decides to skip
+// q, n's other predecessor - the skip is the last thing n hears; n still runs once on p's output
+func VerifC02LateSkip() {
+	g := &vG{nodes: []string{"p", "a1", "a", "q", "z", "n"},
+		edges:    [][2]string{{START, "p"}, {"p", "n"}, {START, "a1"}, {"a1", "a"}, {"q", "n"}, {"n", END}, {"z", END}},
+		branches: []vBranch{{"a", []string{"q", "z"}}}}
+	c02Check(g, vchoose("stream", 2) == 1)
+}
+
 func VerifC02MultiWay() {
 	// a three-way branch with END as a target, targets chained
 	g := &vG{nodes: []string{"a", "b", "c", "d"}, edges: [][2]string{{START, "a"}, {"b", "d"}, {"c", "d"}, {"d", END}},
